@@ -6,7 +6,7 @@ from harness.drivers import simtuner as S
 from harness.drivers import tunerloop as TL
 
 
-def runs(tier, seed, criteria=None):
+def runs(tier, seed, criteria=None, vary_sjwd=False):
     u = SB.UNIT
     n = 6 if tier == "quick" else 60
     out = []
@@ -22,11 +22,12 @@ def runs(tier, seed, criteria=None):
                 # pause-and-resume schedulers may keep every trial paused: a finished / completed budget need never hold
                 started = [c for c in criteria if c[1] == "started"]
                 crit = started[j % len(started)]
-            sim_trace, tl_ev, tuner = S.run(kind, s, nw, conf, crit[0], tuner_conf={"async": j % 5 != 4, "wait": j % 6 == 5})
+            sjwd = not (vary_sjwd and j % 3 == 1)      # start_jobs_without_delay = False: the tuner asks busy_trial_ids()
+            sim_trace, tl_ev, tuner = S.run(kind, s, nw, conf, crit[0], tuner_conf={"async": j % 5 != 4, "wait": j % 6 == 5, "sjwd": sjwd})
             tlconf = {"nw": nw, "kind": "pause", "maxfail": 3, "ckind": crit[1], "k": crit[2], "also": crit[3], "sim": True,
-                      "async": j % 5 != 4, "wait": j % 6 == 5}
+                      "async": j % 5 != 4, "wait": j % 6 == 5, "sjwd": sjwd}
             out.append((sim_trace, TL.to_trace({"conf": tlconf, "ev": tl_ev}, 0),
-                        {"scheduler": kind, "seed": s, "n_workers": nw, "criterion": crit[0]}))
+                        {"scheduler": kind, "seed": s, "n_workers": nw, "criterion": crit[0], "start_jobs_without_delay": sjwd}))
     return out
 
 
@@ -44,7 +45,7 @@ def campaign(rep, tier, seed, validate_sim_traces):
 def campaign_tunerloop(rep, pid, tier, seed, criteria=None):
     """C01 / C12: the TunerLoop traces of simulated tuning runs."""
     from harness.props import tuner_common as T
-    rs = runs(tier, seed + 1, criteria)
+    rs = runs(tier, seed + 1, criteria, vary_sjwd=True)
     traces, meta = [], []
     for _, tl, m in rs:
         tl["id"] = len(traces) + 1
